@@ -40,7 +40,12 @@ def gen_case(rng):
         r = rng.random()
         if r < 0.28:
             s = rng.choice(["a", "a", "a", "b"])
-            ev.append(("vpn", s, rng.choice(SRC_KEYS[s]), rtset(rng)))
+            rts = rtset(rng)
+            if rng.random() < 0.35:
+                # other extended communities among the targets, in any position
+                rts = list(rts)
+                rts.insert(rng.randrange(len(rts) + 1), "color%d" % rng.randrange(1, 9))
+            ev.append(("vpn", s, rng.choice(SRC_KEYS[s]), rts))
         elif r < 0.36:
             s = rng.choice(["a", "a", "b"])
             ev.append(("vpnwd", s, rng.choice(SRC_KEYS[s])))
@@ -102,7 +107,7 @@ def sim_line(c):
 
 
 def rti(l):
-    return " ".join(str(RTS.index(t) + 1) for t in l)
+    return " ".join(str(RTS.index(t) + 1) for t in l if t in RTS)
 
 
 def model_line(c):
@@ -160,7 +165,7 @@ def canon_impl(c, out):
                     if e[0] in KEYSTR:
                         attrs = e[1][2] if len(e[1]) > 2 else ""
                         m = re.search(r"ec\[([^\]]*)\]", attrs)
-                        d["table"][str(KIDX[KEYSTR[e[0]]])] = sorted(x for x in (m.group(1).split(",") if m else []) if x)
+                        d["table"][str(KIDX[KEYSTR[e[0]]])] = sorted(x for x in (m.group(1).split(",") if m else []) if x in RTS)
         res.append(d)
     return res
 
@@ -206,7 +211,7 @@ def oracle(c, out):
     for e in c["events"]:
         k = e[0]
         if k == "vpn":
-            routes[e[2]] = (e[1], set(e[3]))
+            routes[e[2]] = (e[1], set(t for t in e[3] if t in RTS))
         elif k == "vpnwd":
             if e[2] in routes and routes[e[2]][0] == e[1]:
                 del routes[e[2]]
